@@ -106,6 +106,21 @@ def shrink(scn, still_fails, budget_s=60.0, max_rounds=6):
             best = cand
         return ok
 
+    # 0. session mode: drop earlier scenarios of the same process (chunks, then singles)
+    if best.get("prefix"):
+        chunk = max(1, len(best["prefix"]) // 2)
+        while chunk >= 1:
+            i = len(best["prefix"]) - chunk
+            while i >= 0:
+                cand = dict(best)
+                cand["prefix"] = best["prefix"][:i] + best["prefix"][i + chunk:]
+                attempt(cand)
+                i -= chunk
+                i = min(i, len(best["prefix"]) - chunk)
+            chunk //= 2
+        if not best["prefix"]:
+            best = {k: v for k, v in best.items() if k != "prefix"}
+
     for _ in range(max_rounds):
         before = _measure(best)
         # 1. steps: chunks then singles, from the end
